@@ -182,6 +182,7 @@ struct CompliantElem : ContactElemBase {
             B2.updBody().addContactSurface(Transform(~X2 * c2G), ContactSurface(ContactGeometry::Sphere(r2), cm2));
         }
         (void)c1G;
+        hasShapeCoefficient = (pair == 2 || pair == 3);
         name = std::string("CompliantContact-") + (pair <= 1 ? "HertzCircular" : pair <= 3 ? "HertzElliptical" : pair == 4 ? "ElasticFoundation" : "BrickHalfSpacePenalty");
         regime = std::string(nm1) + (otherIsHalfSpace ? "-halfspace/" : "-sphere/") + poseName(pose) + (dissip ? "/c" : "/c0") + (fric ? "/mu" : "/mu0");
         return true;
